@@ -1,13 +1,14 @@
 //! bqcheck: BOUNDED stand-in for unit U-bq (used only when Verus cannot accept the extracted BufferQueue code):
 //! exhaustively compares the real markup5ever BufferQueue with the flat-string model of property C13 over
-//! every queue of <= 3 buffers with <= 4 characters in total over the alphabet {a, B, -, é}, every operation
+//! every queue of <= 3 buffers with <= 4 characters in total over the alphabet {a, B, -, é, U+2026}, every operation
 //! in {next, peek, pop_except_from({-,&}), eat(p, exact), eat(p, ignore-case)} and every pattern in PATS,
 //! followed by a drain of the queue (so lost / duplicated / reordered characters are seen).
 use markup5ever::buffer_queue::{BufferQueue, SetResult};
 use markup5ever::small_char_set;
 use markup5ever::tendril::StrTendril;
 
-const ALPHA: [char; 4] = ['a', 'B', '-', 'é'];
+// '\u{2026}' has the low byte 0x26 = '&': a character outside the set that a byte-truncating membership test would take for a member
+const ALPHA: [char; 5] = ['a', 'B', '-', 'é', '\u{2026}'];
 const PATS: [&str; 6] = ["a", "ab", "a-", "--", "ba", "abab"];
 
 fn mk(bufs: &[String]) -> BufferQueue {
